@@ -565,7 +565,7 @@ func c02SameType(c *Ctx) {
 	}
 	n := 0
 	for _, fn := range c.P.LibFns {
-		if len(fn.Params) != 1 || ir.TypeStr(fn.Params[0].Type()) != "*encoding/json.RawMessage" || fn.Signature.Results().Len() != 2 {
+		if len(fn.Params) < 1 || ir.TypeStr(fn.Params[0].Type()) != "*encoding/json.RawMessage" || fn.Signature.Results().Len() != 2 { // (also instantiations of a generic decoder(raw, label))
 			continue
 		}
 		rt := fn.Signature.Results().At(0).Type()
@@ -840,6 +840,37 @@ func c02AnswerStatusOK(c *Ctx, rule string) {
 			case *ssa.Call:
 				if b, ok := x.Call.Value.(*ssa.Builtin); ok && b.Name() == "append" {
 					return walk(x.Call.Args[0], d+1)
+				}
+				// the bytes of a buffer a json.Encoder of the same function encoded into
+				if ir.CallName(x) == "(*bytes.Buffer).Bytes" {
+					enc := false
+					scan := []*ssa.Function{x.Parent()}
+					// ... or of a buffer a library helper encoded into and handed back
+					if len(x.Call.Args) > 0 {
+						if oc := originCall(x.Call.Args[0]); oc != nil {
+							if sc := ir.StaticCallee(oc); sc != nil && c.P.IsLib(sc) {
+								scan = append(scan, sc)
+							}
+						}
+					}
+					for _, f := range scan {
+						ir.EachCall(f, func(ic ssa.CallInstruction) {
+							if ir.CallName(ic) == "(*encoding/json.Encoder).Encode" {
+								enc = true
+							}
+						})
+					}
+					return enc
+				}
+				// the single result of a library encoder
+				if sc := ir.StaticCallee(x); sc != nil && c.P.IsLib(sc) && sc.Signature.Results().Len() == 1 {
+					found := false
+					ir.EachInstr(sc, func(b *ssa.BasicBlock, _ int, in ssa.Instruction) {
+						if r, ok := in.(*ssa.Return); ok && b != sc.Recover && len(ir.Results(r)) > 0 && walk(ir.Results(r)[0], d+1) {
+							found = true
+						}
+					})
+					return found
 				}
 			case *ssa.UnOp:
 				if u := unspill(x); u != ssa.Value(x) {
